@@ -65,8 +65,11 @@ func H_C21_EntryRoundTrip() {
 	kl, vl, bl := c21Sizes()
 	e, f := c21Entry(kl, vl, bl)
 	rw := RWMode(vChoose(2))
-	off := int64(vChoose(2) * 61)
 	buf := e.Encode()
+	// at the start of the segment, in the middle, and flush with its end (the last byte of the record is
+	// the last byte of the file)
+	offs := []int64{0, 61, 128 - int64(len(buf))}
+	off := offs[vChoose(len(offs))]
 	vAssert("roundtrip.size", int64(len(buf)) == e.Size())
 	df := c21Store(dir+"/0.dat", rw, buf, off)
 	if df == nil {
